@@ -63,6 +63,8 @@ def message_pool(remote_as, r=None):
         ('keepalive_body', frame(4, b'\x00')),
         ('update_ok', frame(2, update_body())),
         ('update_withdraw', frame(2, update_body(nlri=b'', attrs=b'', withdraw=b'\x18\x0a\x00\x00'))),
+        ('update_aspath4', frame(2, update_body(attrs=bytes.fromhex('40010100' '4002060201' '0000fde9' '4003040a000001')))),
+        ('update_aspath2', frame(2, update_body(attrs=bytes.fromhex('40010100' '4002040201' 'fde9' '4003040a000001')))),
         ('update_eor', frame(2, update_body(nlri=b'', attrs=b''))),
         ('update_bad_origin', frame(2, update_body(attrs=bytes.fromhex('40010103')))),
         ('update_bad_prefix', frame(2, update_body(nlri=b'\x21\x0a\x00\x00\x00\x00'))),
